@@ -15,8 +15,11 @@ CONSTANTS
   FixRevertVerify = TRUE
   FixUnderflow = TRUE
   Fine = FALSE
+  EmptyDiff = {2, 4}
+  RootCheckedOnEmptyDiff = TRUE
+  VerdictPerAnswer = TRUE
 INIT Init
 NEXT Next
-INVARIANTS TypeOK LocalIsSourceBlocks ReorgExact
+INVARIANTS TypeOK LocalIsSourceBlocks ReorgExact StoredOnlyVerified
 PROPERTIES StoreSafe HeadMovesOnlyByStoreOrRevert RevertsJustified RevertsHaveEvidence
 CHECK_DEADLOCK TRUE
